@@ -972,6 +972,9 @@ def _compute_delj(dx, MInt, VInt, axis=0):
         # for functioning with MInt.
         upslice = [nuax for ii in range(MInt.ndim)]
         upslice [axis] = slice(None)
+        # Index with a tuple: indexing with a list of None/slice objects is an
+        # error in current numpy.
+        upslice = tuple(upslice)
 
         wj = 2 *MInt*dx[upslice]
         epsj = numpy.exp(wj/VInt[upslice])
